@@ -178,3 +178,11 @@ func sortedKeys[V any](m map[string]V) []string {
 }
 
 const coqHeader = "From Avo Require Import Base.Prelude Base.Str.\n"
+
+func readFile(p string) []byte {
+	b, err := os.ReadFile(p)
+	if err != nil {
+		die(err)
+	}
+	return b
+}
